@@ -481,9 +481,43 @@ def rule_fatlen(ctx, rep):
     rep.floor("R-FATLEN", 1, "at least one fabricated fat block pointer (today: the allocation closure and the thin-to-fat helper)")
 
 
+def _layout_neutral_retype(F, B, op):
+    """The cast only adds or removes `MaybeUninit<_>` / `ManuallyDrop<_>` around (parts of) the pointee: both are guaranteed to
+    have the size, alignment and ABI of what they wrap, so the block is freed with the layout it was requested with."""
+    o = B.origin(op, through_casts=False)
+    if o.get("kind") != "rvalue" or o["rv"]["k"] != "cast":
+        return False
+    src = operand_place(o["rv"]["op"])
+    if src is None or "ty" not in src:
+        return False
+
+    WR = ("core::mem::maybe_uninit::MaybeUninit", "core::mem::manually_drop::ManuallyDrop")
+
+    def canon(i):
+        t = F.ty(i)
+        k = t["k"]
+        if k == "adt":
+            args = [canon(a["t"]) for a in t["args"] if "t" in a]
+            if t["path"] in WR and args:
+                return args[0]
+            return t["path"] + ("<" + ", ".join(args) + ">" if args else "")
+        if k == "slice":
+            return "[" + canon(t["t"]) + "]"
+        if k == "array":
+            return "[" + canon(t["t"]) + "; " + str(t["len"]) + "]"
+        if k in ("ref", "ptr"):
+            return "*" + canon(t["t"])
+        if k == "tuple":
+            return "(" + ", ".join(canon(x) for x in t["ts"]) + ")"
+        return t["s"]
+
+    return canon(src["ty"]) == canon(o["rv"]["ty"])
+
+
 def rule_free_type(ctx, rep):
-    """The release side frees the block through the handle's own, un-retyped pointer."""
-    for tag, F, E in ctx.each(da=False):
+    """The release side frees the block through the handle's own, un-retyped pointer. (Also judged in the configurations with
+    debug assertions on: a release path may exist there only - a debug build that poisons the vacated payload before freeing.)"""
+    for tag, F, E in ctx.each():
         for b, bi, t, what in balance.free_sites(F):
             B = cfg.Body(b)
             ik = b["key"] + "/free-type"
@@ -498,7 +532,14 @@ def rule_free_type(ctx, rep):
                     x = n
                     while x[0] == "stored":
                         x = x[1]
-                    retyped = raw[0] == "cast" and raw[1] == "PtrToPtr"
+                    retyped = raw[0] == "cast" and raw[1] == "PtrToPtr" and not _layout_neutral_retype(F, B, t2["args"][0])
+                    pty = F.ts(t2["arg_tys"][0]) if t2.get("arg_tys") else ""
+                    if "; 0]" in pty and F.mentions_adt(t2["arg_tys"][0], F.inner_path):
+                        # `Box::from_raw(thin.ptr.as_ptr())`: the thin handle's stored pointer is typed at the prefix of the block
+                        # (slice tail `[T; 0]`): freed through it, no element is destroyed and the layout is the header's alone
+                        why = "the block is freed through the thin prefix type %s (its slice tail is typed `[T; 0]`): the elements are never destroyed and the block goes back with the layout of the header alone - a thin handle must re-fatten its pointer first" % pty
+                        ok = False
+                        break
                     if n[0] == "stored" and x == ("arg", 1) and not retyped:
                         ok = True
                     elif n[0] == "arg" and not retyped and not balance.is_api(F, b):
@@ -684,6 +725,7 @@ def main(argv):
             "extracted expression, not execution of the crate. Not decided: what the allocator does with the layout."
             " Round thirteen/fourteen: R-GUARD as a premise (a replacement behind with_arc_mut's transient reaches the handle on both exits); the block type may be read off an allocation helper's return type; bitwise NOT on integers is evaluated."
             ' Round fifteen: R-ZST-DIV (no division by a generic payload size without a non-zero test); integer methods (`wrapping_neg` ...) are evaluated.'
+            ' Round sixteen: R-FREE-TYPE also in the debug-assertion configurations; layout-neutral re-typings (MaybeUninit / ManuallyDrop) accepted; no free through the thin prefix type.'
         ),
         rule_text="programs = (allocation site, root caller) pairs and re-typing casts; each is evaluated on every cell of the shape matrix; a disagreement is reported with a concrete (H, T, len) witness",
         trusted_base=["std's documented Layout::extend/array/pad_to_align arithmetic and the repr(C) layout algorithm (re-implemented in analysis/layout.py)", "rustc MIR def-use", "Box<T> frees with Layout::for_value of its pointee"],
